@@ -72,6 +72,12 @@ SutStep(s) ==
        [] s = "draw" ->
             /\ Obs(IF srng = "seeded" THEN "draw-first" ELSE "draw-later") /\ srng' = "moved"
             /\ UNCHANGED <<out, nullOpen, fdOpen, savedFds, logOff, prng, glob, phase, n>>
+       [] s = "draw_inst" ->       \* draws from a module-level random.Random(seed) instance of the SUT
+            /\ Obs(IF srng = "seeded" THEN "draw-first" ELSE "draw-later") /\ srng' = "moved"
+            /\ UNCHANGED <<out, nullOpen, fdOpen, savedFds, logOff, prng, glob, phase, n>>
+       [] s = "log_hang" ->        \* disables logging, then never returns (the executor times out)
+            /\ logOff' = TRUE /\ Obs("timeout")
+            /\ UNCHANGED <<out, nullOpen, fdOpen, savedFds, prng, srng, glob, phase, n>>
        [] s = "mutate_global" ->
             /\ glob' = 1 /\ Obs(IF glob = 0 THEN "glob-first" ELSE "glob-later")
             /\ UNCHANGED <<out, nullOpen, fdOpen, savedFds, logOff, prng, srng, phase, n>>
